@@ -99,7 +99,11 @@ let oframe_s (o : oframe) =
   String.concat "," (List.map si (hdr_bytes o.o_frame))
 
 let result_s = function
-  | ROk (_, f) -> let ((t, l), g) = reply_view f in Printf.sprintf "ok %s %s %s" (si t) (si l) (si g)
+  | ROk (_, f) ->
+    let ((t, l), g) = reply_view f in
+    (* a reply beyond the buffering limit: (typ, nil, nil) before /repo 62a2d82, an error since; the python side accepts either *)
+    if int_of_n l = 0 && int_of_n f.f_len <> 0 then Printf.sprintf "oversize %s" (si t)
+    else Printf.sprintf "ok %s %s %s" (si t) (si l) (si g)
   | RZero -> "zero" | RSent -> "sent" | RErrClosed -> "closed" | RErrCtx -> "ctx" | RErrOther -> "other"
 let cphase_s = function
   | None -> "unknown"
